@@ -190,7 +190,7 @@ Proof.
   destruct (forget_one s c ino1) as [p1 e1]. destruct (forget_one s c ino2) as [p2 e2]. cbn [snd] in *.
   destruct p1; [fin H; lia|]. destruct p2; fin H; rewrite app_length; lia.
   - destruct (get_real_rootfs s ino) as [[?|? ? ?]| |]; fin H; cbn; lia.
-  - destruct (get_real_rootfs s ino) as [[?|? ? ?]| |]; try (fin H; cbn; lia).
+  - destruct (get_real_rootfs s ino) as [[?|? ? ?]| |]; [fin H; cbn; lia| |fin H; cbn; lia|fin H; cbn; lia].
     destruct (to_int (effective_mapping s idx) uid); [|fin H; cbn; lia].
     destruct (to_int (effective_mapping s idx) gid); fin H; cbn; lia.
   - destruct (aget m forward_table) as [[[[validate g] is_entry] ret_unit]|]; [|fin H; cbn; lia].
@@ -198,13 +198,13 @@ Proof.
     destruct (gate_closed s g); [fin H; cbn; lia|].
     destruct (get_real_rootfs s ino) as [[?|? ? ?]| |]; fin H; cbn; lia.
   - destruct (negb (name_safe oldname) || negb (name_safe newname)); [fin H; cbn; lia|].
-    destruct (get_real_rootfs s olddir) as [so| |]; try (fin H; cbn; lia).
-    destruct (get_real_rootfs s newdir) as [sn| |]; try (fin H; cbn; lia).
+    destruct (get_real_rootfs s olddir) as [so| |]; [|fin H; cbn; lia|fin H; cbn; lia].
+    destruct (get_real_rootfs s newdir) as [sn| |]; [|fin H; cbn; lia|fin H; cbn; lia].
     match type of H with (if ?x then _ else _) = _ => destruct x end; [fin H; cbn; lia|].
     destruct so; fin H; cbn; lia.
   - destruct (negb (name_safe nm)); [fin H; cbn; lia|].
-    destruct (get_real_rootfs s ino) as [so| |]; try (fin H; cbn; lia).
-    destruct (get_real_rootfs s newparent) as [sn| |]; try (fin H; cbn; lia).
+    destruct (get_real_rootfs s ino) as [so| |]; [|fin H; cbn; lia|fin H; cbn; lia].
+    destruct (get_real_rootfs s newparent) as [sn| |]; [|fin H; cbn; lia|fin H; cbn; lia].
     match type of H with (if ?x then _ else _) = _ => destruct x end; [fin H; cbn; lia|].
     destruct so; fin H; cbn; lia.
   - destruct (get_real_rootfs s ino) as [[?|? ? ?]| |]; fin H; cbn; lia.
@@ -236,10 +236,11 @@ Proof.
     - exact E. }
   assert (Hnone : eff s n = None).
   { destruct Hv as [Hnz Hn]. unfold eff. destruct (fs_idx n =? 0) eqn:E0; [apply N.eqb_eq in E0; contradiction|]. rewrite Hn. reflexivity. }
+  pose proof (routing s c o a r evs W H) as R.
   destruct o; cbn [op_inodes] in Hin; cbn [vfs_op] in H.
   - destruct Hin as [<-|[]]. rewrite Hg in H. destruct (has_slash nm); inversion H; split; eauto.
   - destruct Hin as [<-|[]]. rewrite Hg in H. inversion H. reflexivity.
-  - pose proof (routing s c _ a r evs W H) as R. eapply Forall_impl; [|exact R].
+  - eapply Forall_impl; [|exact R].
     intros ev _ (b & idx & i & E & _). congruence.
   - destruct Hin as [<-|[]]. rewrite Hg in H. inversion H; split; eauto.
   - destruct Hin as [<-|[]]. rewrite Hg in H. inversion H; split; eauto.
@@ -250,13 +251,13 @@ Proof.
   - destruct (negb (name_safe oldname) || negb (name_safe newname)); [inversion H; split; eauto|].
     destruct Hin as [<-|[<-|[]]].
     + rewrite Hg in H. inversion H; split; eauto.
-    + rewrite Hg in H. destruct (get_real_rootfs s olddir); inversion H; split; eauto.
-      pose proof (grr_no_panic s olddir W). congruence.
+    + rewrite Hg in H. pose proof (grr_no_panic s olddir W) as NP.
+      destruct (get_real_rootfs s olddir); [inversion H; split; eauto|inversion H; split; eauto|contradiction].
   - destruct (negb (name_safe nm)); [inversion H; split; eauto|].
     destruct Hin as [<-|[<-|[]]].
     + rewrite Hg in H. inversion H; split; eauto.
-    + rewrite Hg in H. destruct (get_real_rootfs s ino); inversion H; split; eauto.
-      pose proof (grr_no_panic s ino W). congruence.
+    + rewrite Hg in H. pose proof (grr_no_panic s ino W) as NP.
+      destruct (get_real_rootfs s ino); [inversion H; split; eauto|inversion H; split; eauto|contradiction].
   - destruct Hin as [<-|[]]. rewrite Hg in H. inversion H; split; eauto.
   - destruct Hin.
 Qed.
@@ -293,4 +294,32 @@ Theorem unforwarded_unreached : forall s c a m, In m unforwarded ->
 Proof.
   intros s c a m Hin. cbn [vfs_op]. unfold default_of.
   cbn in Hin. repeat (destruct Hin as [<- | Hin]; [vm_compute; eauto|]). destruct Hin.
+Qed.
+
+(* the same for a request as the server delivers it (context remapped first), on any reachable state *)
+Theorem routing_request : forall s hdr c o a r evs, reachable s -> vfs_request s hdr c o a = (r, evs) ->
+  Forall (routed s o) evs.
+Proof.
+  intros s hdr c o a r evs R H. unfold vfs_request in H.
+  destruct (srv_remap_ctx s hdr c) as [c'| |].
+  - eapply routing; [apply reachable_wf; exact R|exact H].
+  - inversion H. constructor.
+  - inversion H. constructor.
+Qed.
+
+Lemma triple_eta {A B C} (x : A * B * C) : x = (fst (fst x), snd (fst x), snd x).
+Proof. destruct x as [[a b] c]. reflexivity. Qed.
+
+(* a reachable state: backend 10 at /n1 (index 1), backend 11 at "/" (index 2) *)
+Definition ex_ma (ino : N) : mount_ans := mkMA 0 ino 0 0 0 1000 0.
+Definition ex_state : vfs :=
+  let s0 := vfs_new default_opts false in
+  let s1 := fst (fst (vfs_mount s0 10 (mkPath true [CNorm 1]) None (ex_ma 1))) in
+  fst (fst (vfs_mount s1 11 (mkPath true []) None (ex_ma 7))).
+Lemma ex_reachable : exists s, reachable s /\ eff s (mk_vino 1 5) = Some (10, 1, 5) /\ eff s 1 = Some (11, 2, 7) /\
+  vacant s (mk_vino 3 1).
+Proof.
+  exists ex_state. split.
+  - unfold ex_state. eapply R_mount; [eapply R_mount; [apply R_new|]|]; apply triple_eta.
+  - vm_compute. repeat split; discriminate.
 Qed.
